@@ -533,7 +533,7 @@ pub fn items(prop: &str, tier: &str) -> Vec<Item> {
                         let mut op = Op::new("proc_open").base(base).path(sub).flags(O_RDONLY | O_NONBLOCK);
                         op = if hk == "new" { op.procfs("new") } else { op.procfs("pj") };
                         let sc = Scenario { name: format!("{}{}/{}/{}", who_name(who), opts.map(|o| format!("+{}", o)).unwrap_or_default(), hk, op.brief()), backend: "K".into(), op, path: class.to_string() };
-                        let mut it = item(sc, Plan::Fault { bound: if th { 2 } else { 1 }, cfg: FaultCfg { all_syscalls: false, per_class: 4, eagain_runs: vec![], exhaustion: false, custom: Some((names.clone(), vec![libc::EPERM, libc::ENOSYS, libc::ENOENT])) } }, if th { 30_000 } else { 3_000 });
+                        let mut it = item(sc, Plan::Fault { bound: if th { 2 } else { 1 }, cfg: FaultCfg { all_syscalls: false, per_class: 4, eagain_runs: vec![], exhaustion: true, custom: Some((names.clone(), vec![libc::EPERM, libc::ENOSYS, libc::ENOENT])) } }, if th { 30_000 } else { 3_000 });
                         it.proc_opts = opts.map(|s| s.to_string()); it.unpriv = unpriv; it.userns = who == 2; it.nofile = Some(256);
                         v.push(it);
                     }
@@ -815,6 +815,16 @@ fn judge(prop: &str, it: &Item, scen: &Scenario, w: &World, eo: &ExecOut, counts
                     v.push((format!("missing-not-enoent:{}", if o.ok { "ok".into() } else { errname(o.errno.unwrap_or(-1)) }), format!("lookup of a path that does not exist reported {} ({}) instead of ENOENT", outcome_text(w, eo, 0), o.msg.clone().unwrap_or_default().chars().take(160).collect::<String>())));
                 }
                 if !eo.faults.is_empty() && o.ok && scen.path == "missing" { v.push(("missing-found".into(), "lookup of a path that does not exist succeeded".into())); }
+                // the kernel has already answered ENOENT for the path itself; if every deviating answer came afterwards (i.e. only
+                // the internal attempt to get a better handle for a retry was disturbed), the caller must still be told ENOENT
+                if scen.path == "missing" && !eo.faults.is_empty() && o.panic.is_none() && !o.ok {
+                    let first_enoent = eo.events.iter().position(|e| matches!(e.name.as_str(), "openat2" | "openat") && e.rval == -(libc::ENOENT as i64) && e.injected.is_none() && e.fdid.as_ref().map(|i| i.fstype) == Some(PROC_MAGIC));
+                    if let Some(j) = first_enoent {
+                        if eo.faults.iter().all(|(i, _)| *i > j) && o.errno != Some(libc::ENOENT) {
+                            v.push((format!("missing-not-enoent-after-retry-failure:{}", errname(o.errno.unwrap_or(-1))), format!("the path does not exist (the kernel said ENOENT at syscall {}), only the creation of a temporary handle for the retry failed afterwards, yet the lookup reported {} ({})", j, outcome_text(w, eo, 0), o.msg.clone().unwrap_or_default().chars().take(160).collect::<String>())));
+                        }
+                    }
+                }
                 // "true errors": an entry that exists but is hidden by the mount options of the /proc at hand must not be reported
                 // as missing to a caller that is able to get a full private procfs (root with capabilities)
                 if scen.path == "masked" && scen.op.name != "proc_readlink" && !it.unpriv && it.mount_api == 0 && eo.faults.is_empty() && o.panic.is_none() && !o.ok && o.errno == Some(libc::ENOENT) && scen.op.path.as_deref() != Some("1/nonexistent") {
